@@ -108,6 +108,7 @@ struct Cfg {
     f64_decoded: bool,                       // f64 values are decoded doubles (Base/F64.v `fval`), integers are `Z` (api/src/read.rs)
     wrappers: Option<String>,                // exported functions `T::with_mut(|c| body)` are translated as methods of T
     derive_eq: bool,                         // emit `T_eqb` for types deriving PartialEq
+    oracles: Vec<(String, String)>,          // extra parameters of every generated function (foreign calls): (name, Coq type)
 }
 
 struct Tr {
@@ -118,6 +119,8 @@ struct Tr {
     consts: BTreeMap<String, (Ty, String)>, // file-level consts: name -> (type, gallina)
     sigs: HashMap<(String, String), Sig>,
     variant_fields: HashMap<(String, String), Vec<String>>,
+    field_tyname: HashMap<(String, String), String>, // (struct, field) -> the declared type name (kept for newtypes)
+    local: HashSet<(String, String)>,                // functions translated in this run (they take the oracles)
 }
 
 struct Fx<'a> {
@@ -1008,6 +1011,9 @@ impl<'a> Fx<'a> {
                 if t == Ty::F64 {
                     return Ok((a, Ty::Int("u64".into())));
                 }
+                if let Ty::Int(_) = t {
+                    return Ok((a, t));   // a newtype represented by its field
+                }
             }
             _ => {}
         }
@@ -1052,8 +1058,11 @@ impl<'a> Fx<'a> {
         let owner = match &rt {
             Ty::Named(n) => n.clone(),
             _ => {
-                // a method of a newtype represented by its field: resolve through the function's own type
-                if self.tr.sigs.contains_key(&(self.self_ty.clone(), name.clone())) { self.self_ty.clone() } else {
+                // a method of a newtype represented by its field: resolve through the declared type of the field, else
+                // through the function's own type
+                let declared = fs.last().and_then(|(o, f)| self.tr.field_tyname.get(&(o.clone(), f.clone())).cloned());
+                if let Some(d) = declared.filter(|d| self.tr.sigs.contains_key(&(d.clone(), name.clone()))) { d }
+                else if self.tr.sigs.contains_key(&(self.self_ty.clone(), name.clone())) { self.self_ty.clone() } else {
                 return err(&format!("method `{}` on a receiver of unknown type", name), m.span()); }
             }
         };
@@ -1069,6 +1078,7 @@ impl<'a> Fx<'a> {
             return err("argument count", sp);
         }
         let mut call = format!("{}_{} W trap", sig.owner, sig.name);
+        if self.tr.local.contains(&(sig.owner.clone(), sig.name.clone())) { for (o, _) in &self.tr.cfg.oracles { let _ = write!(call, " {}", o); } }
         let mut outs: Vec<(String, Vec<(String, String)>)> = vec![];
         if let Some((root, fs)) = &recv {
             if sig.recv.is_none() {
@@ -1562,6 +1572,30 @@ impl<'a> Fx<'a> {
                 self.tyenv.insert(n.clone(), sty.clone());
                 Ok(n)
             }
+            Pat::TupleStruct(ts) if ts.path.segments.len() == 1 && (ts.path.segments[0].ident == "Ok" || ts.path.segments[0].ident == "Some") && ts.elems.len() == 1 => {
+                let inner_ty = match sty { Ty::Opt(t) | Ty::Res(t) => (**t).clone(), _ => Ty::Unknown };
+                let ctor = if matches!(sty, Ty::Res(_)) { "ROk" } else { "Some" };
+                let inner = self.pattern(&ts.elems[0], &inner_ty, None)?;
+                Ok(format!("{} ({})", ctor, inner))
+            }
+            Pat::Struct(ps) if ps.path.segments.len() >= 2 => {
+                // `Enum::Variant { a, b, .. }`
+                let segs = path_str(&ps.path);
+                let owner = if segs[segs.len() - 2] == "Self" { self.self_ty.clone() } else { segs[segs.len() - 2].clone() };
+                let var = segs.last().unwrap().clone();
+                let names = self.tr.variant_fields.get(&(owner.clone(), var.clone())).cloned().ok_or(format!("T8: unknown struct variant {}::{} in a pattern", owner, var))?;
+                let tys = self.tr.enums.get(&owner).and_then(|vs| vs.iter().find(|(v, _)| *v == var)).map(|(_, t)| t.clone()).unwrap_or_default();
+                let mut slots = vec!["_".to_string(); names.len()];
+                for fp in &ps.fields {
+                    if let Member::Named(i) = &fp.member {
+                        let k = names.iter().position(|n| *n == i.to_string()).ok_or(format!("T8: unknown field {} of {}::{}", i, owner, var))?;
+                        let bind = match &*fp.pat { Pat::Ident(pi) => pi.ident.to_string(), Pat::Wild(_) => "_".to_string(), _ => return err("nested field pattern", fp.span()) };
+                        if bind != "_" { self.tyenv.insert(bind.clone(), tys.get(k).cloned().unwrap_or(Ty::Unknown)); self.alias.remove(&bind); }
+                        slots[k] = bind;
+                    }
+                }
+                Ok(format!("{}_{} {}", owner, var, slots.join(" ")))
+            }
             Pat::TupleStruct(ts) => {
                 let segs = path_str(&ts.path);
                 let owner = if segs.len() >= 2 {
@@ -1708,6 +1742,7 @@ fn main() {
         f64_decoded: false,
         wrappers: None,
         derive_eq: false,
+        oracles: vec![],
     };
     let mut emit_consts = true;
     let mut i = 1;
@@ -1754,6 +1789,7 @@ fn main() {
                 cfg.extern_fns.insert(a.into(), (f.into(), t.into()));
             }
             "--wrappers" => cfg.wrappers = Some(v.clone()),
+            "--oracle" => { let (a, b) = v.split_once(':').expect("--oracle name:CoqType"); cfg.oracles.push((a.into(), b.into())); }
             "--derive-eq" => { cfg.derive_eq = true; i += 1; continue; }
             "--f64-decoded" => { cfg.f64_decoded = true; i += 1; continue; }
             "--impl-of" => { cfg.impl_of.extend(v.split(',').map(|s| s.to_string())); }
@@ -1786,7 +1822,7 @@ fn main() {
 fn run(src: &str, types: &[String], imports: &[String], cfg: Cfg, emit_consts: bool) -> R<String> {
     let text = std::fs::read_to_string(src).map_err(|e| format!("T8: cannot read {}: {}", src, e))?;
     let file = syn::parse_file(&text).map_err(|e| format!("T8: cannot parse {}: {}", src, e))?;
-    let mut tr = Tr { cfg, structs: BTreeMap::new(), enums: BTreeMap::new(), unit_enums: HashSet::new(), consts: BTreeMap::new(), sigs: HashMap::new(), variant_fields: HashMap::new() };
+    let mut tr = Tr { cfg, structs: BTreeMap::new(), enums: BTreeMap::new(), unit_enums: HashSet::new(), consts: BTreeMap::new(), sigs: HashMap::new(), variant_fields: HashMap::new(), field_tyname: HashMap::new(), local: HashSet::new() };
     // types and signatures generated elsewhere (their files are imported by the caller with --import)
     let also = std::mem::take(&mut tr.cfg.also);
     for (f, tys) in &also {
@@ -1808,7 +1844,10 @@ fn run(src: &str, types: &[String], imports: &[String], cfg: Cfg, emit_consts: b
                 }
                 Item::Enum(e) if tys.contains(&e.ident.to_string()) => {
                     let mut vs = vec![];
-                    for v in &e.variants { let mut ts = vec![]; for fl in v.fields.iter() { ts.push(tr.ty(&fl.ty)?); } vs.push((v.ident.to_string(), ts)); }
+                    for v in &e.variants { let mut ts = vec![]; let mut names = vec![];
+                        for fl in v.fields.iter() { if let Some(i) = &fl.ident { names.push(i.to_string()); } ts.push(tr.ty(&fl.ty)?); }
+                        if !names.is_empty() { tr.variant_fields.insert((e.ident.to_string(), v.ident.to_string()), names); }
+                        vs.push((v.ident.to_string(), ts)); }
                     tr.enums.insert(e.ident.to_string(), vs);
                 }
                 Item::Impl(im) if im.trait_.is_none() && !has_cfg_test(&im.attrs) => {
@@ -1817,6 +1856,9 @@ fn run(src: &str, types: &[String], imports: &[String], cfg: Cfg, emit_consts: b
                     for ii in &im.items {
                         if let ImplItem::Fn(fun) = ii {
                             if let Ok(sig) = sig_of(&tr, &owner, &fun.sig) { tr.sigs.insert((owner.clone(), sig.name.clone()), sig); }
+                        }
+                        if let ImplItem::Const(c) = ii {
+                            if let Ok(t) = tr.ty(&c.ty) { tr.consts.insert(format!("{}::{}", owner, c.ident), (t, String::new())); }
                         }
                     }
                 }
@@ -1893,6 +1935,7 @@ fn run(src: &str, types: &[String], imports: &[String], cfg: Cfg, emit_consts: b
                 let mut fs = vec![];
                 for (k, f) in s.fields.iter().enumerate() {
                     let n = f.ident.as_ref().map(|i| i.to_string()).unwrap_or(format!("f{}", k));
+                    if let Type::Path(tp) = &f.ty { tr.field_tyname.insert((s.ident.to_string(), n.clone()), path_str(&tp.path).last().unwrap().clone()); }
                     fs.push((n, tr.ty(&f.ty)?));
                 }
                 tr.structs.insert(s.ident.to_string(), fs);
@@ -2046,11 +2089,13 @@ fn run(src: &str, types: &[String], imports: &[String], cfg: Cfg, emit_consts: b
             bodies.push((sig, block, f.span().start().line));
         }
     }
+    for (sg, _, _) in &bodies { tr.local.insert((sg.owner.clone(), sg.name.clone())); }
     // translate bodies
     let mut defs: Vec<(String, String, Vec<(String, String)>)> = vec![]; // (key, text, callees)
     for (sig, block, line) in &bodies {
         let mut fx = Fx { tr: &tr, self_ty: sig.owner.clone(), outs: vec![], ret: sig.ret.clone(), tyenv: HashMap::new(), alias: HashMap::new(), fresh: 0, calls: vec![], ptr_src: HashMap::new() };
         let mut header = format!("(* {}::{} — {}:{} *)\nDefinition {}_{} (W : N) (trap : bool)", sig.owner, sig.name, src_rel(src), line, sig.owner, sig.name);
+        for (o, t) in &tr.cfg.oracles { let _ = write!(header, " ({} : {})", o, t); }
         let mut out_tys: Vec<String> = vec![];
         if let Some(m) = sig.recv {
             let st = tr.named(&sig.owner);
